@@ -21,6 +21,8 @@ Decided (all on the type-checked MIR):
       detached), and a use indexed by `len - 1` is accepted only when its key comes from that builder, called with
       the same cache variable
   X7  the MAC writer absorbs every cache slot (sibling agreement with the checker, which MACs every stored level)
+  X8  the MAC key and the keyed-hash computation are the reference preimages (hash-sigs: key = H(0^20 || D_DAUX || whole seed),
+      HMAC-style inner / outer hash over level word and cached levels): closed world over the hash sessions of the aux routines
   X6  totality on arbitrary aux bytes / lengths: the panic-freedom engine (as C11) restricted to the functions that
       touch the aux buffer or the expanded cache
 Not decided: that cached nodes equal recomputed nodes (output equality over runtime values).
@@ -34,7 +36,7 @@ from .core import AnchorLost
 LEVEL = "other"
 TECHNIQUE = ("who-may-construct enumeration, guard facts with edge removal on the MIR CFG, whole-value provenance of the MAC comparison, "
              "dominance (zero fill before unauthenticated use), typestate (attached/detached) dataflow with first-iteration evaluation, "
-             "panic-freedom engine restricted to the aux routines")
+             "hash-session extraction matched against the reference MAC preimages, panic-freedom engine restricted to the aux routines")
 
 OPTION = flow.OPTION
 CMP_CALLS = ("subtle::ConstantTimeEq::ct_eq", "core::cmp::PartialEq::eq", "core::cmp::PartialEq::ne")
